@@ -26,7 +26,18 @@ def oracle(line: str, obs: Obs):
     # request delivered) predicts: only failures that are exactly this are the known finding
     k2_order: list = []
     k2_pending: dict = {}
+    # events run from inside a request handler (`during=`) are listed inside the block of the delivering event: unfold them
+    blocks = []
     for ev, lines in obs.blocks:
+        cur_ev, cur = ev, []
+        for l in lines:
+            if l.startswith("EVN ") and ev.split(" ")[0] in ("rx", "rxm", "rxcut"):
+                blocks.append((cur_ev, cur))
+                cur_ev, cur = l[4:], []
+            else:
+                cur.append(l)
+        blocks.append((cur_ev, cur))
+    for ev, lines in blocks:
         t = ev.split(" ")
         if t[0] == "rx":
             c = f"c{t[1]}"
@@ -126,6 +137,10 @@ def scenarios(rng: random.Random, tier: str):
             evs = [f"rx {order[0]} " + nodegen.ccr(hb, n(), names[order[0]]), f"rx {order[1]} " + nodegen.ccr(hb, n(), names[order[1]]),
                    leave, "ans 0 %d 2001" % order.index(0), "ans 0 %d 2001" % order.index(1)]
             out.append(pre2 + " | " + " | ".join(evs))
+    # the application answers from inside its request handler (and a second time afterwards)
+    for extra in ("", " | ans 0 0 2001"):
+        during = cfg.replace("NODE ", "NODE during=ans_0_0_2001;", 1)
+        out.append(during + " | start | acc | rx 0 " + nodegen.cer("peer1.x", "4", n(), n()) + f" | rx 0 {nodegen.ccr(n(), n(), 'peer1.x')}{extra} | tick")
     # identifiers at the edges of their range are the peer's choice: the answer goes out all the same
     pre0 = cfg + " | start | acc | rx 0 " + nodegen.cer("peer1.x", "4", n(), n())
     for hb, ee in ((0, n()), (n(), 0), (0, 0), (4294967295, 4294967295), (1, 1)):
